@@ -1,5 +1,6 @@
 import Gomjml.Core.LayoutSpec
 import Gomjml.Core.LayoutStd
+import Gomjml.Core.LayoutLeaves
 /-! # C02 — output is well-formed HTML for standard (non-Outlook) clients (property theorems only)
 
 `Layout.render` is the control-flow-faithful skeleton model of body / section / wrapper / column / group / hero / raw
@@ -27,5 +28,30 @@ example : StdWF ((render [.section ⟨false, false, false, false, false, false, 
 /-- a background-image section inside a wrapper (formerly `vml-in-std`: its VML was written outside any conditional) -/
 example : StdWF ((render [.wrapper ⟨false, false, [.sec ⟨false, true, false, false, false, false, []⟩]⟩]).map Tok.toG) := by
   unfold StdWF; decide
+
+/-! ### with the content components filled in -/
+open Gomjml.LayoutLeaves Gomjml.Leaves in
+/-- **C02 for documents with real content components**: any layout tree with, in every content slot, any of mj-text, mj-button,
+    mj-image, mj-divider, mj-spacer, mj-table, mj-social (horizontal / vertical, any number of elements with or without icon,
+    link, text), mj-navbar (with or without hamburger, any number of links), mj-accordion (any number of elements, each with or
+    without title / text, icon left or right), mj-carousel (any number ≥ 1 of images, with or without links and thumbnails):
+    what standard clients see is strictly nested, conditional blocks (Outlook-only AND not-Outlook ones) are delimited and never
+    nested, no Outlook-only markup outside a conditional.  No side condition. -/
+theorem C02_components (d : Doc) : StdWF d.render := (doc_spec d).1
+
+open Gomjml.Leaves in
+/-- the component half on its own: every content component, whatever its parameters and children, leaves the three checkers
+    exactly where it found them -/
+theorem C02_component_inert (l : LeafM) : Gomjml.Expand.Inert l.toks := leaf_inert l
+
+open Gomjml.LayoutLeaves Gomjml.Leaves in
+/-- non-vacuity: a section with a column holding a social bar (two elements, one without icon), a hamburger navbar with two
+    links and a carousel of two images, next to a hero with an accordion — complete (a component for every slot) and rendered -/
+def dEx : Doc :=
+  ⟨[.section ⟨false, false, false, false, false, false, [.col ⟨false, [.slot, .text, .slot, .slot]⟩]⟩, .hero [.slot]],
+   [.social false [⟨true, true, true⟩, ⟨false, false, true⟩], .keep, .navbar true [true, false], .carousel true false [true],
+    .accordion [⟨some true, some true, false⟩, ⟨none, some false, true⟩]]⟩
+example : dEx.Complete := by unfold Gomjml.LayoutLeaves.Doc.Complete; decide
+example : dEx.render.length = 301 ∧ Gomjml.Leaves.cntT dEx.render = 5 := by decide +kernel
 
 end Gomjml.Props.C02
